@@ -584,6 +584,7 @@ class Report:
         self.samples = []
         self.notes = []
         self.exceptions = []
+        self.floor_failures = []
 
     def ob(self, rule, site, ok=True, sample=None):
         self.obligations.append((rule, site, ok))
@@ -606,9 +607,11 @@ class Report:
         self.analysed["functions"].add((fn.file, fn.name) if isinstance(fn, Func) else fn)
 
     def floor(self, rule, what, got, need):
+        """instance floors guard against vacuous passes; they are enforced at the end of the run and only when the
+        run would otherwise pass (a violation already found is reported as such)"""
         if got < need:
-            raise AnalysisBroken("%s: %s matched %d sites, confirmed floor is %d — the rule no longer sees its instances"
-                                 % (rule, what, got, need))
+            self.floor_failures.append("%s: %s matched %d sites, confirmed floor is %d — the rule no longer sees its instances"
+                                       % (rule, what, got, need))
 
 
 def load_known_findings():
@@ -630,6 +633,8 @@ def finish(report, tier, t0, level_text, rule_text, assumptions, program=None):
             knownhits.append((f, known[f.key()]))
         else:
             viol.append(f)
+    if report.floor_failures and not viol:
+        raise AnalysisBroken("; ".join(report.floor_failures))
     evdir = os.path.join(VERIF, "evidence")
     os.makedirs(os.path.join(evdir, "replay"), exist_ok=True)
     # remove stale replay files of this property
@@ -770,9 +775,17 @@ def global_accesses(f):
             continue
         # climb while we stay inside the same object (member/subscript chain)
         cur, par = n, f.parent(n)
-        while par is not None and par.get("k") in ("MemberExpr", "ArraySubscriptExpr") and kids(par)[0] is cur:
-            # an array subscript of a *pointer* global reads the pointer and accesses other storage
-            cur, par = par, f.parent(par)
+        while par is not None:
+            if par.get("k") in ("MemberExpr", "ArraySubscriptExpr") and kids(par)[0] is cur:
+                cur, par = par, f.parent(par)
+                continue
+            # element access of an array object: arr[i] is (decay(arr))[i]
+            if par.get("k") == "ImplicitCastExpr" and par.get("ck") == "ArrayToPointerDecay":
+                gp = f.parent(par)
+                if gp is not None and gp.get("k") == "ArraySubscriptExpr" and kids(gp)[0] is par:
+                    cur, par = gp, f.parent(gp)
+                    continue
+            break
         mode = "r"
         if par is not None:
             k = par.get("k")
